@@ -23,8 +23,8 @@
   completeness direction: both pivot searches compare magnitudes `mag x = if x < 0 then -x else x`
   with `<`, and only under compatibility does "no magnitude exceeds 0" mean "the column is zero".
 
-  Note on the pivot search of `solve_basic`: `max_abs_in_column` starts from `max_index = 0`, so
-  on an all-zero pivot sub-column it returns row 0.  For a nonsingular matrix this never happens:
+  Note on the pivot search of `solve_basic`: `max_abs_in_column` starts from the current row, so
+  on an all-zero pivot sub-column it returns that row.  For a nonsingular matrix this never happens:
   the current matrix has echelon shape in the columns already processed and a determinant equal
   to `± det A ≠ 0`, hence its pivot sub-column is not zero (`Mat.det_zero_of_good_zero_col`), and
   the search then returns a row on or below the diagonal with a non-zero entry
